@@ -48,15 +48,15 @@ def dime_safe(g):
     return cyclomatic == len(rings)
 
 
-def gen_molecule(rng, max_heavy=12, p_arom=0.3, p_ring=0.25, charged=True, hetero=True, triple=True, lowest_valence=False, p_fused=0.0):
+def gen_molecule(rng, max_heavy=12, p_arom=0.3, p_ring=0.25, charged=True, hetero=True, triple=True, lowest_valence=False, p_fused=0.0, p_thio=0.0):
     for _ in range(200):
-        g = _gen_once(rng, max_heavy, p_arom, p_ring, charged, hetero, triple, lowest_valence, p_fused)
+        g = _gen_once(rng, max_heavy, p_arom, p_ring, charged, hetero, triple, lowest_valence, p_fused, p_thio)
         if g is not None and dime_safe(g):
             return g
     raise RuntimeError('molecule generator failed')
 
 
-def _gen_once(rng, max_heavy, p_arom, p_ring, charged, hetero, triple, lowest_valence=False, p_fused=0.0):
+def _gen_once(rng, max_heavy, p_arom, p_ring, charged, hetero, triple, lowest_valence=False, p_fused=0.0, p_thio=0.0):
     g = nx.Graph()
     nring = [0]
 
@@ -138,6 +138,13 @@ def _gen_once(rng, max_heavy, p_arom, p_ring, charged, hetero, triple, lowest_va
             mo = 1
         o = rng.choice([1, 1, 1, 2, 3][:{1: 3, 2: 4, 3: 5}[max(1, mo)]])
         g.add_edge(a, b, order=o)
+    if p_thio and rng.random() < p_thio:
+        # aryl thioethers / thiols: written 'Sc...', the one everyday pair of an aliphatic and an aromatic atom whose
+        # letters also spell an element symbol
+        cand = [n for n in g if not g.nodes[n]['aromatic'] and g.nodes[n]['element'] == 'C' and g.nodes[n]['charge'] == 0 and g.degree(n) <= 2
+                and all(d['order'] == 1 for _, _, d in g.edges(n, data=True)) and any(g.nodes[x]['aromatic'] for x in g[n])]
+        if cand:
+            g.nodes[rng.choice(cand)].update(element='S', cap=2)
     for n in g:
         d = g.nodes[n]
         h = hcount_for(d['element'], d['charge'], used(g, n))
